@@ -9,91 +9,14 @@
  *   ord[i]              a permutation: relative order of the items inside a bucket
  *   hint in 0..2        max_collisions_hint;  rwlock ticket counters symbolic (unlocked)
  * Invariant INV: every key at most once; item in bucket hash(key, nb_bits(level)) of a linked table
- * (or the top); cur_len = chain length; bucket locks free; table rwlock free; a linked old table is
- * non-empty and its used_buckets = number of its non-empty buckets; unlinked old tables are empty;
+ * (or the top); cur_len = chain length; bucket locks free; table rwlock free; used_buckets of a linked old
+ * table = number of its non-empty buckets (possibly 0); unlinked old tables are empty;
  * next_to_free chains all levels T..0; item->key / hash64 consistent.
  * Keys are 4 concrete values chosen by spec.py (collide at 1 bit, split at 2 and 3 bits) so the
  * 64-bit universal hash is constant-folded; WHICH key is operated on is symbolic (if-chain).
  * After the operation: result vs. model, contents = model, INV re-established (closure), resize
  * happened iff the documented trigger fired.  OP selects the operation kind (one query each). */
-#include "vp_harness.h"
-#include <stddef.h>
-#include <stdlib.h>
-static void *vp_malloc(size_t sz); static void vp_free(void *p);
-#define malloc vp_malloc
-#define free vp_free
-#ifdef VP_MEMO_HASH
-/* spec.py renames the definition of the real universal hash to vp_real_universal_rehash (patches=); every call in the file
- * reaches this memo of the REAL function on the harness' domain (4 concrete keys x nb_bits 1..3), filled by calling the
- * real function on concrete arguments.  Reason: nolock_insert() re-hashes item->key read through a symbolic item pointer,
- * which would put a 64-bit multiplier + divider per chain position into the formula. */
-#include "parsec/class/parsec_hash_table.h"
-static uint64_t parsec_hash_table_universal_rehash(parsec_key_t key, int nb_bits);
-#endif
-#include "parsec/class/parsec_hash_table.c"
-#undef malloc
-#undef free
-#ifdef VP_MEMO_HASH
-static int HB[4][3]; static int vp_memo_miss;
-static uint64_t parsec_hash_table_universal_rehash(parsec_key_t key, int nb_bits)
-{
-    if(nb_bits < 1 || nb_bits > 3) { vp_memo_miss = 1; return 0; }
-    if(key == (parsec_key_t)KEY0) return (uint64_t)HB[0][nb_bits - 1];
-    if(key == (parsec_key_t)KEY1) return (uint64_t)HB[1][nb_bits - 1];
-    if(key == (parsec_key_t)KEY2) return (uint64_t)HB[2][nb_bits - 1];
-    if(key == (parsec_key_t)KEY3) return (uint64_t)HB[3][nb_bits - 1];
-    vp_memo_miss = 1; return 0;
-}
-#define REAL_REHASH vp_real_universal_rehash
-#else
-static int HB[4][3]; static int vp_memo_miss;
-#define REAL_REHASH parsec_hash_table_universal_rehash
-#endif
-
-#define OP_INSERT 0
-#define OP_FIND 1
-#define OP_REMOVE 2
-#define OP_FOI 3      /* lock_bucket_handle; nolock_find_handle; if absent nolock_insert_handle; unlock_bucket_handle */
-#define OP_FORALL 4
-#define OP_FINI 5
-#define OP_INIT 6
-#define OP_NOLOCK 7   /* lock_bucket; nolock_find; nolock_remove | nolock_insert; unlock_bucket (key API) */
-#ifndef OP
-#define OP OP_FIND
-#endif
-#ifndef MAXBITS
-#define MAXBITS 4
-#endif
-
-static parsec_hash_table_head_t VH0, VH1, VH2;
-static parsec_hash_table_bucket_t VB0[2], VB1[4], VB2[8];
-static int vp_nhead, vp_nbk, vp_alloc_overflow;
-static int vp_freed_h[3], vp_freed_b[3], vp_freed_bad;
-static void *vp_malloc(size_t sz)
-{
-    /* init and resize allocate a head, then its bucket array (sizeof(head) == sizeof(VB0), so the kind is told by call parity) */
-    if(vp_nhead == vp_nbk) { int n = vp_nhead++; if(sz == sizeof(parsec_hash_table_head_t)) { if(n == 0) return &VH0; if(n == 1) return &VH1; if(n == 2) return &VH2; } }
-    else { int n = vp_nbk++;
-        if(n == 0 && sz == sizeof(VB0)) return VB0; if(n == 1 && sz == sizeof(VB1)) return VB1; if(n == 2 && sz == sizeof(VB2)) return VB2; }
-    vp_alloc_overflow = 1; return NULL;
-}
-static void vp_free(void *p)
-{
-    if(p == &VH0) vp_freed_h[0]++; else if(p == &VH1) vp_freed_h[1]++; else if(p == &VH2) vp_freed_h[2]++;
-    else if(p == VB0) vp_freed_b[0]++; else if(p == VB1) vp_freed_b[1]++; else if(p == VB2) vp_freed_b[2]++;
-    else vp_freed_bad = 1;
-}
-
-int parsec_debug_colorize, parsec_debug_rank;
-void parsec_output_verbose(int level, int id, const char *fmt, ...) { (void)level; (void)id; (void)fmt; }
-int parsec_mca_param_reg_int_name(const char *t, const char *n, const char *h, bool a, bool b, int d, int *s){ (void)t;(void)n;(void)h;(void)a;(void)b;(void)d;(void)s; return -1; }
-int parsec_mca_param_lookup_int(int idx, int *v){ (void)idx;(void)v; return -1; }
-
-typedef struct { int id; parsec_hash_table_item_t hi; } elt_t;
-static elt_t E0, E1, E2, E3;
-static const uint64_t KEYS[4] = { KEY0, KEY1, KEY2, KEY3 };
-static parsec_hash_table_t ht;
-/* HB[i][l]: bucket of key i at level l: the REAL hash on concrete arguments (constant-folded) */
+#include "ht_common.h"
 
 /* ---------- pre-state ---------- */
 static int T, lk[3], loc[4], ord[4], hint;
@@ -108,26 +31,9 @@ static int nonempty0(void){ return (VB0[0].first_item != NULL) + (VB0[1].first_i
 static int nonempty1(void){ int n = 0; for(int b = 0; b < 4; b++) n += (VB1[b].first_item != NULL); return n; }
 static int nonempty2(void){ int n = 0; for(int b = 0; b < 8; b++) n += (VB2[b].first_item != NULL); return n; }
 
+/* T and lk[] are set (to constants, one shape per branch of main's if-chain) before the call */
 static void build_pre(void)
 {
-    for(int l = 0; l < 3; l++) {
-        HB[0][l] = (int)REAL_REHASH((parsec_key_t)KEY0, l + 1);
-        HB[1][l] = (int)REAL_REHASH((parsec_key_t)KEY1, l + 1);
-        HB[2][l] = (int)REAL_REHASH((parsec_key_t)KEY2, l + 1);
-        HB[3][l] = (int)REAL_REHASH((parsec_key_t)KEY3, l + 1);
-    }
-#ifdef TOP
-    T = TOP;
-#else
-    T = IN_RANGE(0, 2);
-#endif
-#ifdef LK0
-    lk[0] = LK0; lk[1] = LK1; lk[2] = 0;
-#else
-    lk[0] = IN_BOOL(); lk[1] = IN_BOOL(); lk[2] = 0;
-#endif
-    if(T < 1) lk[0] = 0;
-    if(T < 2) lk[1] = 0;
     hint = IN_RANGE(0, 2);
     int used = 0;
     for(int i = 0; i < 4; i++) {
@@ -136,9 +42,7 @@ static void build_pre(void)
         VASSUME(loc[i] < 0 || loc[i] == T || lk[loc[i]]);          /* stored only in the top or in a linked old table */
         VASSUME(!(used & (1 << ord[i]))); used |= 1 << ord[i];      /* ord is a permutation */
     }
-    /* a linked old table holds at least one item */
-    VASSUME(!lk[0] || loc[0] == 0 || loc[1] == 0 || loc[2] == 0 || loc[3] == 0);
-    VASSUME(!lk[1] || loc[0] == 1 || loc[1] == 1 || loc[2] == 1 || loc[3] == 1);
+    /* (a linked old table may be empty: reachable concurrently, see hc.c scenario 4) */
     /* tables */
     VH0.nb_bits = 1; VH0.buckets = VB0; VH0.next = NULL; VH0.next_to_free = NULL;
     VH1.nb_bits = 2; VH1.buckets = VB1; VH1.next = lk[0] ? &VH0 : NULL; VH1.next_to_free = &VH0;
@@ -154,87 +58,6 @@ static void build_pre(void)
     ht.max_collisions_hint = hint; ht.max_table_nb_bits = MAXBITS; ht.warning_issued = IN_BOOL();
     { int nr = IN_RANGE(0, 3), nw = IN_RANGE(0, 3);               /* unlocked rwlock after nr readers / nw writers */
       ht.rw_lock.rin = nr << 8; ht.rw_lock.rout = nr << 8; ht.rw_lock.win = nw; ht.rw_lock.wout = nw; }
-}
-
-/* ---------- post-state: abstraction + invariant ---------- */
-static int a_top, a_lk[3], a_cnt[4], a_loc[4], a_len[3][8];
-static int bad_item, bad_bucket, bad_key, bad_len, bad_lock, bad_cycle, bad_chain, bad_used, bad_unlinked_nonempty, bad_linked_empty, bad_ntf, bad_head;
-
-/* pointers are first translated to small integers (0 = NULL, 1..4 = item of key 0..3, 5 = anything else), so that the
- * chain walks below run over small integer arrays instead of dereferencing symbolic pointers */
-static unsigned char nxt[6], first_[3][8];
-static inline unsigned char idof(parsec_hash_table_item_t *p)
-{ return (p == NULL) ? 0 : (p == &E0.hi) ? 1 : (p == &E1.hi) ? 2 : (p == &E2.hi) ? 3 : (p == &E3.hi) ? 4 : 5; }
-static int scan_bucket(int l, parsec_hash_table_bucket_t *b, int bi)
-{
-    int n = 0; unsigned char cur = idof(b->first_item);
-    for(; cur != 0 && n < 5; n++) {
-        if(cur == 5) { bad_item = 1; break; }
-        a_cnt[cur - 1]++; a_loc[cur - 1] = l;
-        if(HB[cur - 1][l] != bi) bad_bucket = 1;
-        cur = nxt[cur];
-    }
-    if(n > 4) bad_cycle = 1;
-    if(b->cur_len != n) bad_len = 1;
-    if(b->lock != 0) bad_lock = 1;
-    a_len[l][bi] = n;
-    return n > 0;
-}
-static void scan_items(void)
-{
-    nxt[0] = 0; nxt[5] = 5;
-    nxt[1] = idof(E0.hi.next_item); nxt[2] = idof(E1.hi.next_item); nxt[3] = idof(E2.hi.next_item); nxt[4] = idof(E3.hi.next_item);
-}
-static void check_keys(void)
-{
-    if(a_cnt[0] && (E0.hi.key != (parsec_key_t)KEY0 || E0.hi.hash64 != (uint64_t)KEY0)) bad_key = 1;
-    if(a_cnt[1] && (E1.hi.key != (parsec_key_t)KEY1 || E1.hi.hash64 != (uint64_t)KEY1)) bad_key = 1;
-    if(a_cnt[2] && (E2.hi.key != (parsec_key_t)KEY2 || E2.hi.hash64 != (uint64_t)KEY2)) bad_key = 1;
-    if(a_cnt[3] && (E3.hi.key != (parsec_key_t)KEY3 || E3.hi.hash64 != (uint64_t)KEY3)) bad_key = 1;
-}
-static void scan(void)
-{
-    parsec_hash_table_head_t *top = ht.rw_hash, *p;
-    a_top = (top == &VH0) ? 0 : (top == &VH1) ? 1 : (top == &VH2) ? 2 : -1;
-    if(a_top < 0) { bad_head = 1; return; }
-    scan_items();
-    /* lookup chain: strictly decreasing levels below the top, NULL-terminated */
-    p = top->next;
-    if(a_top > 1) { if(p == &VH1) { a_lk[1] = 1; p = VH1.next; } }
-    if(a_top > 0) { if(p == &VH0) { a_lk[0] = 1; p = VH0.next; } }
-    if(p != NULL) bad_chain = 1;
-    /* allocation chain: all levels a_top..0 */
-    if(a_top == 2 && (VH2.next_to_free != &VH1 || VH1.next_to_free != &VH0 || VH0.next_to_free != NULL)) bad_ntf = 1;
-    if(a_top == 1 && (VH1.next_to_free != &VH0 || VH0.next_to_free != NULL)) bad_ntf = 1;
-    if(a_top == 0 && VH0.next_to_free != NULL) bad_ntf = 1;
-    if(VH0.nb_bits != 1 || VH0.buckets != VB0 || (a_top >= 1 && (VH1.nb_bits != 2 || VH1.buckets != VB1)) || (a_top >= 2 && (VH2.nb_bits != 3 || VH2.buckets != VB2))) bad_head = 1;
-    int ne;
-    ne = 0; for(int b = 0; b < 2; b++) ne += scan_bucket(0, &VB0[b], b);
-    if(a_top > 0) { if(a_lk[0]) { if(ne == 0) bad_linked_empty = 1; if(VH0.used_buckets != ne) bad_used = 1; } else if(ne != 0) bad_unlinked_nonempty = 1; }
-    if(a_top >= 1) {
-        ne = 0; for(int b = 0; b < 4; b++) ne += scan_bucket(1, &VB1[b], b);
-        if(a_top > 1) { if(a_lk[1]) { if(ne == 0) bad_linked_empty = 1; if(VH1.used_buckets != ne) bad_used = 1; } else if(ne != 0) bad_unlinked_nonempty = 1; }
-    }
-    if(a_top >= 2) { for(int b = 0; b < 8; b++) scan_bucket(2, &VB2[b], b); }
-    check_keys();
-}
-static void assert_inv(void)
-{
-    VASSERTM(!vp_memo_miss, "hash memo covers every (key, nb_bits) the code asked for");
-    VASSERTM(!bad_head, "INV: rw_hash is a table level with its own nb_bits and bucket array");
-    VASSERTM(!bad_chain, "INV: lookup chain = linked older levels in decreasing order, NULL-terminated");
-    VASSERTM(!bad_ntf, "INV: next_to_free chains every allocated level");
-    VASSERTM(!bad_item && !bad_cycle, "INV: bucket chains are acyclic lists of known items");
-    VASSERTM(!bad_bucket, "INV: every item sits in the bucket its hash selects at that level");
-    VASSERTM(!bad_key, "INV: item key / hash64 intact");
-    VASSERTM(!bad_len, "INV: cur_len equals the chain length in every bucket of every level");
-    VASSERTM(!bad_lock, "bucket locks released (all levels)");
-    VASSERTM(!bad_linked_empty, "an emptied old table is unlinked from the lookup chain");
-    VASSERTM(!bad_used, "INV: used_buckets of a linked old table counts its non-empty buckets");
-    VASSERTM(!bad_unlinked_nonempty, "INV: an unlinked old table holds no item (nothing becomes unreachable)");
-    VASSERTM(a_cnt[0] <= 1 && a_cnt[1] <= 1 && a_cnt[2] <= 1 && a_cnt[3] <= 1, "INV: unique keys");
-    VASSERTM(ht.rw_lock.rin >> 8 == ht.rw_lock.rout >> 8 && ht.rw_lock.win == ht.rw_lock.wout && (ht.rw_lock.rin & 0xff) == 0, "table rwlock released");
-    VASSERTM(!vp_alloc_overflow && vp_nhead == a_top + 1 && vp_nbk == a_top + 1, "one head + one bucket array allocated per level");
 }
 
 /* ---------- the operation ---------- */
@@ -271,27 +94,9 @@ static void visit(void *item, void *cb){ nvisit++;
     if(cb != (void*)&nvisit) bad_visit = 1;
     if(item == &E0) visits[0]++; else if(item == &E1) visits[1]++; else if(item == &E2) visits[2]++; else if(item == &E3) visits[3]++; else bad_visit = 1; }
 
-int main(void)
+#if OP != OP_INIT && OP != OP_HASH
+static void body(void)
 {
-#if OP == OP_INIT
-    /* closure, base case: the state produced by the real init satisfies INV */
-    HB[0][0] = 0; T = 0;
-    for(int l = 0; l < 3; l++) {
-        HB[0][l] = (int)REAL_REHASH((parsec_key_t)KEY0, l + 1); HB[1][l] = (int)REAL_REHASH((parsec_key_t)KEY1, l + 1);
-        HB[2][l] = (int)REAL_REHASH((parsec_key_t)KEY2, l + 1); HB[3][l] = (int)REAL_REHASH((parsec_key_t)KEY3, l + 1); }
-    ht.max_collisions_hint = IN_RANGE(0, 2); ht.max_table_nb_bits = MAXBITS;
-    ht.rw_lock.rin = IN_INT(); ht.rw_lock.win = IN_INT(); VB0[1].lock = IN_INT(); VB0[0].cur_len = IN_INT(); VB0[1].first_item = &E0.hi;  /* garbage before init */
-    parsec_hash_table_init(&ht, offsetof(elt_t, hi), 1, parsec_hash_table_generic_key_fn, NULL);
-    scan(); assert_inv();
-    VASSERTM(a_top == 0 && a_cnt[0] + a_cnt[1] + a_cnt[2] + a_cnt[3] == 0, "init yields an empty one-level table");
-    VASSERTM(ht.elt_hashitem_offset == offsetof(elt_t, hi) && ht.key_functions.key_hash == parsec_hash_table_generic_64bits_key_hash && ht.warning_issued == 0, "init records offset and key functions");
-    VASSERTM(parsec_hash_table_item_lookup(&ht, &E1.hi) == &E1, "item_lookup maps the embedded item to its element");
-    /* the hash of the 4 keys is what spec.py assumed: collide at 1 bit, split at 2 / 3 bits */
-    VASSERTM(HB[0][0] == HB[1][0] && HB[0][0] == HB[2][0] && HB[3][0] != HB[0][0] && HB[0][1] == HB[1][1] && HB[2][1] != HB[0][1] && HB[0][2] != HB[1][2], "key set collides / splits as chosen");
-    VASSERTM(HB[0][0] < 2 && HB[3][0] < 2 && HB[0][1] < 4 && HB[2][1] < 4 && HB[3][1] < 4 && HB[0][2] < 8 && HB[1][2] < 8 && HB[2][2] < 8 && HB[3][2] < 8, "hash < number of buckets");
-    VWITNESS("init");
-    return 0;
-#else
     build_pre();
 #ifdef KI
     int i = KI;
@@ -303,19 +108,18 @@ int main(void)
     scan(); assert_inv();
     VASSERTM(a_top == T && a_lk[0] == lk[0] && a_lk[1] == lk[1], "pre-state tables as described");
     for(int k = 0; k < 4; k++) VASSERTM(a_cnt[k] == PRESENT(k) && (!PRESENT(k) || a_loc[k] == loc[k]), "pre-state items as described");
-    if(T == 2 && lk[0] && lk[1] && loc[0] == 0 && loc[1] == 0 && ord[0] > ord[1]) VWITNESS("three linked levels, two items in one old bucket");
-    if(T == 2 && lk[0] && !lk[1]) VWITNESS("middle level unlinked");
-    if(T == 0 && PRESENT(0) && PRESENT(1) && PRESENT(2) && PRESENT(3)) VWITNESS("single level full");
-    return 0;
+    if(PRESENT(0) && PRESENT(1) && PRESENT(2) && PRESENT(3) && ord[0] > ord[1]) VWITNESS("4 keys stored");
+    if(!PRESENT(0) && !PRESENT(3)) VWITNESS("some keys absent");
+    return;
 #elif OP == OP_FORALL
     parsec_hash_table_for_all(&ht, visit, &nvisit);
     VASSERTM(!bad_visit && nvisit == PRESENT(0) + PRESENT(1) + PRESENT(2) + PRESENT(3), "for_all visits exactly the present items");
     VASSERTM(visits[0] == PRESENT(0) && visits[1] == PRESENT(1) && visits[2] == PRESENT(2) && visits[3] == PRESENT(3), "each present item visited once, absent ones never");
     scan(); assert_inv();
     for(int k = 0; k < 4; k++) VASSERTM(a_cnt[k] == PRESENT(k) && (!PRESENT(k) || a_loc[k] == loc[k]), "for_all does not modify the table");
-    if(T == 2 && lk[0] && lk[1] && nvisit == 4) VWITNESS("visited 4 items over 3 levels");
-    if(T == 2 && !lk[0] && !lk[1] && nvisit >= 2) VWITNESS("skipped unlinked levels");
-    return 0;
+    if(nvisit == 4) VWITNESS("visited 4 items over every linked level");
+    if(nvisit == 1) VWITNESS("visited a single item");
+    return;
 #elif OP == OP_FINI
     VASSUME(!PRESENT(0) && !PRESENT(1) && !PRESENT(2) && !PRESENT(3));   /* contract: table emptied before fini */
     parsec_hash_table_fini(&ht);
@@ -323,9 +127,8 @@ int main(void)
     VASSERTM(!vp_freed_bad, "fini frees only table levels");
     VASSERTM(vp_freed_h[0] == 1 && vp_freed_b[0] == 1 && vp_freed_h[1] == (T >= 1) && vp_freed_b[1] == (T >= 1) && vp_freed_h[2] == (T >= 2) && vp_freed_b[2] == (T >= 2),
              "every allocated level (head and bucket array) freed exactly once, also the unlinked ones");
-    if(T == 2) VWITNESS("three levels freed");
-    if(T == 0) VWITNESS("one level freed");
-    return 0;
+    VWITNESS("all levels freed");
+    return;
 #else
     int toplen_i;      /* filled below: length, after the operation, of key i's bucket in the PRE-state top table */
     if(i == 0) do_op(0, &E0, (parsec_key_t)KEY0); else if(i == 1) do_op(1, &E1, (parsec_key_t)KEY1);
@@ -353,6 +156,12 @@ int main(void)
         if(k == i) VASSERTM(a_cnt[k] == now, "operated key: present afterwards iff the model says so");
         else VASSERTM(a_cnt[k] == PRESENT(k), "every other key is still stored exactly once (findable), absent ones stay absent");
     }
+    /* an old table emptied by this operation is unlinked from the lookup chain */
+    for(int l = 0; l < 2; l++) if(l < T && lk[l]) {
+        int pre_ne = (loc[0] == l) || (loc[1] == l) || (loc[2] == l) || (loc[3] == l);
+        VASSERTM(!(pre_ne && a_ne[l] == 0) || !a_lk[l], "an old table emptied by the operation is unlinked from the lookup chain");
+        VASSERTM(a_lk[l] || a_ne[l] == 0, "only an empty old table is unlinked");
+    }
     /* the operated key, when (still) present, ends in the table that was on top during the operation */
     if(now && (OP != OP_REMOVE)) VASSERTM(a_loc[i] == T, "inserted / found item ends in the current top table (migration from old tables)");
     /* resize: only insert / unlock_bucket may resize, exactly when the documented trigger fires */
@@ -368,27 +177,78 @@ int main(void)
         VASSERTM(n == 0, "a fresh top table is empty");
     }
 #endif
-    /* reachable, non-degenerate instances */
+    /* reachable, non-degenerate instances (phrased so that each is reachable in every table shape) */
+    int wl = lk[0] ? 0 : (lk[1] ? 1 : T);      /* lowest level that holds items */
+    int all4 = a_cnt[0] + a_cnt[1] + a_cnt[2] + a_cnt[3] == 4;
 #if OP == OP_INSERT
-    if(a_top == 2 && T == 1 && lk[0] && hint == 1 && loc[0] == 1 && loc[2] == 0) VWITNESS("insert of a colliding key triggered the second resize with items in both old levels");
-    if(a_top == T && T == 2 && toplen_i == 1 && hint == 0) VWITNESS("no resize at the maximal level");
-    if(a_top == T && T == 0 && hint == 2 && toplen_i == 2) VWITNESS("below the collision hint: no resize");
+    if((T < 2) ? (a_top == T + 1 && toplen_i >= 1 + (hint > 0)) : (toplen_i > hint)) VWITNESS("insert made the bucket exceed the hint: resized (or, at the maximal level, not)");
+    if(a_top == T && toplen_i <= hint) VWITNESS("below the collision hint: no resize");
+    if(all4) VWITNESS("fourth key inserted");
 #elif OP == OP_FIND
-    if(was && T == 2 && loc[i] == 0 && lk[1] && a_lk[0] == 0 && lk[0]) VWITNESS("found in the oldest table behind a linked middle one, migrated, oldest table emptied and unlinked");
-    if(was && T == 2 && loc[i] == 1 && lk[0] && a_lk[1] == 0 && a_lk[0] == 1) VWITNESS("middle table emptied and unlinked, oldest stays");
-    if(was && T == 1 && loc[i] == 0 && a_lk[0] == 1 && a_len[0][0] == 2) VWITNESS("migrated the middle item of a 3-chain");
-    if(!was && T == 2 && lk[0] && lk[1]) VWITNESS("absent key searched through 3 levels");
+    if(was && loc[i] == wl && (wl == T || !a_lk[wl])) VWITNESS("found at the lowest linked level (if old: migrated, that table emptied and unlinked)");
+    if(!was) VWITNESS("absent key searched through every linked level");
+    if(was && all4) VWITNESS("found among 4 stored keys");
 #elif OP == OP_REMOVE
-    if(was && T == 2 && loc[i] == 0 && lk[1] && a_lk[0] == 0) VWITNESS("removed the last item of the oldest table: unlinked");
-    if(was && loc[i] == T && T == 1 && lk[0]) VWITNESS("removed from the top table");
-    if(was && T == 1 && loc[i] == 0 && a_lk[0] == 1 && a_len[0][0] == 2) VWITNESS("removed one of three colliding items of the old table");
-    if(!was && T == 2 && lk[0] && lk[1]) VWITNESS("absent key");
+    if(was && loc[i] == wl && (wl == T || !a_lk[wl])) VWITNESS("removed at the lowest linked level (if old: that table emptied and unlinked)");
+    if(!was) VWITNESS("absent key");
+    if(was && a_cnt[0] + a_cnt[1] + a_cnt[2] + a_cnt[3] == 3) VWITNESS("removed one of 4 stored keys");
 #elif OP == OP_FOI || OP == OP_NOLOCK
-    if(did_insert && a_top == T + 1 && T == 1) VWITNESS("insert under the bucket lock, resize at unlock");
-    if(!did_insert && was && loc[i] < T && a_top == T + 1) VWITNESS("found in an old table, migration made the top bucket exceed the hint: resize at unlock");
-    if(!did_insert && a_top == T && T == 2 && loc[i] == 0) VWITNESS("found in the oldest table");
+    if(did_insert && ((T < 2) ? (a_top == T + 1) : (toplen_i > hint))) VWITNESS("insert under the bucket lock, resize at unlock (or, at the maximal level, not)");
+    if(!did_insert && loc[i] == wl && (wl == T || !a_lk[wl])) VWITNESS("found at the lowest linked level under the bucket lock");
+    if(!did_insert && a_top == T) VWITNESS("found, no resize");
 #endif
+    return;
+#endif
+}
+#endif
+
+int main(void)
+{
+#if OP == OP_HASH
+    uint64_t key = IN_U64();
+    for(int nb = 1; nb <= NBMAX; nb++) {
+        uint64_t h = REAL_REHASH((parsec_key_t)key, nb);
+        VASSERTM(h < (1ULL << nb), "universal hash of any 64-bit key selects an existing bucket (h < 1<<nb_bits)");
+    }
+    hash_tables();
+    for(int nb = 1; nb <= 3; nb++) {
+        VASSERTM(parsec_hash_table_universal_rehash((parsec_key_t)KEY0, nb) == REAL_REHASH((parsec_key_t)KEY0, nb) && parsec_hash_table_universal_rehash((parsec_key_t)KEY1, nb) == REAL_REHASH((parsec_key_t)KEY1, nb)
+              && parsec_hash_table_universal_rehash((parsec_key_t)KEY2, nb) == REAL_REHASH((parsec_key_t)KEY2, nb) && parsec_hash_table_universal_rehash((parsec_key_t)KEY3, nb) == REAL_REHASH((parsec_key_t)KEY3, nb),
+              "hash memo = real hash on the 4 keys x 3 levels");
+    }
+    VASSERTM(!vp_memo_miss, "memo covers the domain");
+    if(REAL_REHASH((parsec_key_t)key, 3) == 5 && key > 1000) VWITNESS("some large key hashes to bucket 5 of 8");
     return 0;
+#elif OP == OP_INIT
+    /* closure, base case: the state produced by the real init satisfies INV */
+    hash_tables(); T = 0;
+    ht.max_collisions_hint = IN_RANGE(0, 2); ht.max_table_nb_bits = MAXBITS;
+    ht.rw_lock.rin = IN_INT(); ht.rw_lock.win = IN_INT(); VB0[1].lock = IN_INT(); VB0[0].cur_len = IN_INT(); VB0[1].first_item = &E0.hi;  /* garbage before init */
+    parsec_hash_table_init(&ht, offsetof(elt_t, hi), 1, parsec_hash_table_generic_key_fn, NULL);
+    scan(); assert_inv();
+    VASSERTM(a_top == 0 && a_cnt[0] + a_cnt[1] + a_cnt[2] + a_cnt[3] == 0, "init yields an empty one-level table");
+    VASSERTM(ht.elt_hashitem_offset == offsetof(elt_t, hi) && ht.key_functions.key_hash == parsec_hash_table_generic_64bits_key_hash && ht.warning_issued == 0, "init records offset and key functions");
+    VASSERTM(parsec_hash_table_item_lookup(&ht, &E1.hi) == &E1, "item_lookup maps the embedded item to its element");
+    /* the hash of the 4 keys is what spec.py assumed: collide at 1 bit, split at 2 / 3 bits */
+    VASSERTM(HB[0][0] == HB[1][0] && HB[0][0] == HB[2][0] && HB[3][0] != HB[0][0] && HB[0][1] == HB[1][1] && HB[2][1] != HB[0][1] && HB[0][2] != HB[1][2], "key set collides / splits as chosen");
+    VASSERTM(HB[0][0] < 2 && HB[3][0] < 2 && HB[0][1] < 4 && HB[2][1] < 4 && HB[3][1] < 4 && HB[0][2] < 8 && HB[1][2] < 8 && HB[2][2] < 8 && HB[3][2] < 8, "hash < number of buckets");
+    VWITNESS("init");
+    return 0;
+#else
+    hash_tables();
+    /* table shape: one branch per shape so that every table-level pointer is a constant inside the branch */
+#ifdef SHAPE
+    int shape = SHAPE;
+#else
+    int shape = IN_RANGE(0, 6);
 #endif
+    if(shape == 0) { T = 0; lk[0] = 0; lk[1] = 0; body(); }
+    else if(shape == 1) { T = 1; lk[0] = 0; lk[1] = 0; body(); }
+    else if(shape == 2) { T = 1; lk[0] = 1; lk[1] = 0; body(); }
+    else if(shape == 3) { T = 2; lk[0] = 0; lk[1] = 0; body(); }
+    else if(shape == 4) { T = 2; lk[0] = 1; lk[1] = 0; body(); }
+    else if(shape == 5) { T = 2; lk[0] = 0; lk[1] = 1; body(); }
+    else { T = 2; lk[0] = 1; lk[1] = 1; body(); }
+    return 0;
 #endif
 }
